@@ -377,3 +377,85 @@ Definition o_unblind_with_key (T : ub_oracle) := unblind_with_key (oracle_prims 
 Definition o_unblind_with_nonce (T : ub_oracle) := unblind_with_nonce (oracle_prims T).
 Definition o_unblind_issuance (T : ub_oracle) := unblind_issuance (oracle_prims T).
 Definition o_last_value_range_proof (T : ub_oracle) := last_value_range_proof (oracle_prims T).
+
+(* ---------- zkpGenerator.UnblindInputs (zkp_generator.go) ---------- *)
+(* psetv2.OwnedInput; Asset is the hex string of the reversed id in Go, kept here as the id *)
+Record owned_input := mk_owned {
+  ow_index : N; ow_value : N; ow_asset : bytes; ow_vbf : bytes; ow_abf : bytes
+}.
+
+(* the key material a generator instance is built from: NewZKPGeneratorFromBlindingKeys (keys
+   tried in order) or NewZKPGeneratorFromMasterBlindingKey (SLIP-77: one key derived from the
+   script of the prevout) *)
+Inductive gen_keys := GKeys (keys : list bytes) | GMaster (derive : bytes -> bytes).
+
+Section Generator.
+Context {G C : Type} (P : prims G C).
+
+Definition keys_for (gk : gen_keys) (o : txout) : list bytes :=
+  match gk with GKeys ks => ks | GMaster d => [d (o_script o)] end.
+
+(* the loop over blindingkeys of zkpGenerator.unblindOutput: errors skip to the next key *)
+Fixpoint try_keys (ks : list bytes) (o : txout) : ures unb_result :=
+  match ks with
+  | [] => UErr
+  | k :: r => match unblind_with_key P o k with
+              | UOk u => UOk u
+              | UErr => try_keys r o
+              | UPanic => UPanic
+              end
+  end.
+
+(* zkpGenerator.unblindOutput *)
+Definition gen_unblind_output (gk : gen_keys) (o : txout) : ures unb_result :=
+  if negb (is_conf_out o) then
+    match o_asset o with
+    | [] => UPanic                                   (* AssetHashFromBytes: buffer[1:] *)
+    | _ :: a =>
+      UOk (mk_unb (match value_from_bytes (o_value o) with Some v => v | None => 0 end)
+                  a ub_zero32 ub_zero32)              (* the error of ValueFromBytes is dropped *)
+    end
+  else try_keys (keys_for gk o) o.
+
+Fixpoint unblind_each (gk : gen_keys) (prevouts : list txout) (idxs : list N) : ures (list owned_input) :=
+  match idxs with
+  | [] => UOk []
+  | i :: r =>
+    match nth_error prevouts (N.to_nat i) with
+    | None => UPanic
+    | Some o =>
+      match gen_unblind_output gk o with
+      | UOk u =>
+        match unblind_each gk prevouts r with
+        | UOk l => UOk (mk_owned i (u_value u) (u_asset u) (u_vbf u) (u_abf u) :: l)
+        | UErr => UErr
+        | UPanic => UPanic
+        end
+      | UErr => UErr
+      | UPanic => UPanic
+      end
+    end
+  end.
+
+(* zkpGenerator.UnblindInputs for a generator without owned inputs, on a packet whose inputs
+   all carry a prevout: a function of the packet (its prevouts), the indexes and the keys *)
+Definition unblind_inputs (gk : gen_keys) (prevouts : list txout) (idxs : list N) : ures (list owned_input) :=
+  if existsb (fun i => N.of_nat (length prevouts) <=? i) idxs then UErr   (* validateInputIndexes *)
+  else
+    let idxs' := match idxs with [] => map N.of_nat (seq 0 (length prevouts)) | _ => idxs end in
+    unblind_each gk prevouts idxs'.
+
+(* a generator instance as an object with a history: its state is what the constructor stored;
+   UnblindInputs reads it and leaves it as it is *)
+Definition packet : Type := (list txout * list N)%type.
+Definition gen_step (st : gen_keys) (p : packet) : gen_keys * ures (list owned_input) :=
+  (st, unblind_inputs st (fst p) (snd p)).
+Fixpoint gen_run (st : gen_keys) (h : list packet) : gen_keys * list (ures (list owned_input)) :=
+  match h with
+  | [] => (st, [])
+  | p :: r => let (st1, res) := gen_step st p in
+              let (st2, rs) := gen_run st1 r in (st2, res :: rs)
+  end.
+End Generator.
+
+Definition o_gen_run (T : ub_oracle) := gen_run (oracle_prims T).
